@@ -341,7 +341,8 @@ func (d *driver) livePath(r int) []model.Val {
 			i := 0
 			switch {
 			case miss:
-				i = n + d.rng.Intn(2)
+				// just past the end, or a block further (writes pad with nil up to the index)
+				i = n + []int{0, 1, 0, 1, 31, 32, 33, 64}[d.rng.Intn(8)]
 			case n == 0:
 				return p
 			default:
@@ -1110,6 +1111,37 @@ func cmdDrive(args []string) int {
 					logged(model.Op{Op: "IndexOf", R: r, V: model.Val{K: "int", V: 777}})
 				}
 			}
+			if big && s%5 == 1 {
+				// a long list used as a queue: take from the front, grow past the capacity in one call, put back at the front
+				ls := d.ids("L")
+				var long []int
+				for _, r := range ls {
+					if n := len(d.cur[r-1].E); n >= 64 && n < d.maxList-80 {
+						long = append(long, r)
+					}
+				}
+				if len(long) > 0 {
+					r := long[rng.Intn(len(long))]
+					none := model.Val{K: "none"}
+					logged(model.Op{Op: "Delete", R: r, V: none, Ks: []int{0}})
+					if rng.Intn(2) == 0 {
+						logged(model.Op{Op: "Delete", R: r, V: none, Ks: []int{0}})
+					}
+					grow := model.Op{Op: "Add", R: r, V: none}
+					for k := len(d.cur[r-1].E)/2 + 3; k > 0 && len(grow.Vs) < 70; k-- {
+						grow.Vs = append(grow.Vs, d.scalar())
+					}
+					logged(grow)
+					logged(model.Op{Op: "Replace", R: r, I: 10, V: d.scalar()})
+					if rng.Intn(2) == 0 {
+						logged(model.Op{Op: "Pop", R: r, V: none})
+					}
+					logged(model.Op{Op: "Insert", R: r, I: 0, V: d.scalar()})
+					logged(model.Op{Op: "Insert", R: r, I: 0, V: d.scalar()})
+					logged(model.Op{Op: "Delete", R: r, V: none, Ks: []int{0}})
+					logged(model.Op{Op: "Insert", R: r, I: 1, V: d.scalar()})
+				}
+			}
 			if big && s%5 == 2 {
 				// a window that reaches the end of a long list (SubList to the end, Concat with an empty list, Clone),
 				// then shrink-and-grow on one of the two, overwrite on the other: neither may see the other's writes
@@ -1242,6 +1274,40 @@ func cmdDrive(args []string) int {
 				logged(model.Op{Op: "Equals", R: a, J: c, V: none})
 			}
 		})
+		// Sort outside its domain (first element decides, other kinds are dropped): what is left must behave like any other
+		// list of that content — equality, search, views
+		scen(20410, func(d *driver, logged func(model.Op) model.Val) {
+			iv := func(i int) model.Val { return model.Val{K: "int", V: i} }
+			for _, mix := range [][]model.Val{{iv(3), {K: "str", V: 1}, iv(1), iv(2)}, {{K: "str", V: 2}, iv(5), {K: "str", V: 1}, {K: "nil"}}, {{K: "float", V: 2}, iv(1), {K: "float", V: 1}, {K: "bool", V: 1}}} {
+				a := logged(model.Op{Op: "NewList", V: none, Vs: mix}).V
+				logged(model.Op{Op: "SortAny", R: a, V: none})
+				var kept []model.Val
+				for _, v := range d.cur[a-1].E {
+					kept = append(kept, v)
+				}
+				b := logged(model.Op{Op: "NewList", V: none, Vs: kept}).V
+				if *derived == 0 {
+					logged(model.Op{Op: "Equals", R: a, J: b, V: none})
+					logged(model.Op{Op: "Equals", R: b, J: a, V: none})
+				}
+				c := logged(model.Op{Op: "Clone", R: a, V: none})
+				if c.K == "ref" && *derived == 0 {
+					logged(model.Op{Op: "Equals", R: c.V, J: b, V: none})
+				}
+				outer := logged(model.Op{Op: "NewList", V: none, Vs: []model.Val{{K: "ref", V: a}}}).V
+				outerB := logged(model.Op{Op: "NewList", V: none, Vs: []model.Val{{K: "ref", V: b}}}).V
+				if *derived == 0 {
+					logged(model.Op{Op: "Equals", R: outer, J: outerB, V: none})
+				}
+				logged(model.Op{Op: "NativeCheck", R: a, V: none})
+				logged(model.Op{Op: "ForEach", R: a, I: 6, V: none})
+				logged(model.Op{Op: "Add", R: a, V: none, Vs: []model.Val{{K: "nil"}}})
+				logged(model.Op{Op: "Add", R: b, V: none, Vs: []model.Val{{K: "nil"}}})
+				if *derived == 0 {
+					logged(model.Op{Op: "Equals", R: a, J: b, V: none})
+				}
+			}
+		})
 		// read-only calls on containers that hold the infinities (texts of such containers are not JSON, but the calls must
 		// still leave the containers alone)
 		scen(20420, func(d *driver, logged func(model.Op) model.Val) {
@@ -1344,6 +1410,16 @@ func cmdDrive(args []string) int {
 				logged(model.Op{Op: "UnsetTF", R: a, V: none, Vs: []model.Val{idx(130)}})
 				logged(model.Op{Op: "SetTF", R: a, V: model.Val{K: "int", V: 3}, Vs: []model.Val{idx(130)}})
 				logged(model.Op{Op: "GetTF", R: a, V: none, Vs: []model.Val{idx(n - 2), idx(0)}})
+				// writes that pad: gaps of exactly one and two blocks of 32, at the end of a path and in the middle
+				short := logged(model.Op{Op: "NewList", V: none, Vs: []model.Val{{K: "int", V: 1}, {K: "int", V: 2}}}).V
+				logged(model.Op{Op: "SetTF", R: short, V: model.Val{K: "str", V: 1}, Vs: []model.Val{idx(34)}})
+				logged(model.Op{Op: "SetTF", R: short, V: model.Val{K: "str", V: 2}, Vs: []model.Val{idx(35 + 64)}})
+				logged(model.Op{Op: "SetTF", R: short, V: model.Val{K: "int", V: 4}, Vs: []model.Val{idx(0), idx(32)}})
+				logged(model.Op{Op: "SetTF", R: short, V: model.Val{K: "int", V: 5}, Vs: []model.Val{idx(1), key(1), idx(64), idx(32)}})
+				holder := logged(model.Op{Op: "NewObject", V: none}).V
+				logged(model.Op{Op: "SetTF", R: holder, V: model.Val{K: "int", V: 6}, Vs: []model.Val{key(2), idx(32)}})
+				logged(model.Op{Op: "SetTF", R: holder, V: model.Val{K: "int", V: 7}, Vs: []model.Val{key(2), idx(33 + 32)}})
+				logged(model.Op{Op: "GetTF", R: holder, V: none, Vs: []model.Val{key(2), idx(32)}})
 				b := logged(model.Op{Op: "Clone", R: a, V: none}).V
 				if *derived == 0 {
 					logged(model.Op{Op: "Equals", R: a, J: b, V: none})
